@@ -5,10 +5,10 @@ CONSTANTS
   Clients = {1, 2}
   RecheckGen = TRUE
   SortLocks = TRUE
-  PlusLocksKids = TRUE
-  Scenario = "tree"
+  PlusLocksKids = FALSE
+  Scenario = "half"
   MaxTries = 4
-  RecheckName = TRUE
+  RecheckName = FALSE
   LowestFree = FALSE
   OneOp = {1}
 INVARIANTS TypeOK Refines NoSelfWait NoDeadlock LocksReleased TakenReturned RetryBound
